@@ -20,10 +20,7 @@ package rhp
 //@   ensures result == nil ==> req.Length > 0 && req.Offset <= fc.Filesize / rhp4.SectorSize && req.Length <= fc.Filesize / rhp4.SectorSize - req.Offset
 //@ extern (consensus.State).ContractSigHash pure
 //@ extern (types.PublicKey).VerifyHash pure
-//@ extern (types.Currency).Cmp pure
 //@ extern (types.Currency).Mul64 pure
-//@ extern (types.Currency).Add pure
-//@ extern (types.Currency).IsZero pure
 //@ extern (*rhp4.RPCReplenishAccountsResponse).TotalCost pure
 //
 // Message I/O: writing only reads the message; reading fills exactly the message object (with
@@ -179,8 +176,6 @@ package rhp
 //@ extern rhp4.NewContract pure
 //@ extern rhp4.ContractCost pure
 //@ extern (types.V2FileContractElement).Move
-//@   assigns nothing
-//@ extern (types.SiacoinElement).Move
 //@   assigns nothing
 //
 //@ func rpcRefreshContract props C16
